@@ -66,11 +66,16 @@ def gen_labels(rng, enc, n, m, K, p_missing, allow_unseen=False):
     return vals
 
 
+NEAR_W = [0.8, 0.800001, 0.8000005, 0.75, 3e-9, 2e-9, 1e-9]
+
+
 def gen_weights(rng, shape, mode):
     n = int(np.prod(shape))
     if mode == "none":
         return None
-    src = INT_W if mode == "int" else DYADIC_W
+    # "near": votes that differ only around the sixth digit, and votes of magnitude 1e-9 (inside numpy's default isclose
+    # tolerances of each other / of zero): the class with the strictly larger vote must still win (seed R9C17)
+    src = INT_W if mode == "int" else (NEAR_W if mode == "near" else DYADIC_W)
     w = [rng.choice(src) for _ in range(n)]
     if mode == "nan":
         w = [NAN if rng.random() < 0.3 else x for x in w]
@@ -331,7 +336,7 @@ def random_case(ctx, lines, expect, rng):
         shape = (n,) if m is None else (n, m)
         p_missing = rng.choice([0.0, 0.3, 0.5, 0.7, 1.0])
         vals = gen_labels(rng, enc, n, m, K, p_missing)
-        mode = rng.choice(["none", "int", "dyadic", "nan", "int"])
+        mode = rng.choice(["none", "int", "dyadic", "nan", "int", "near"])
         w = gen_weights(rng, shape, mode)
         case_majority(ctx, lines, expect, enc, vals, shape, classes, w, rng.randrange(2**31 - 1))
     else:
